@@ -1159,6 +1159,7 @@ func C15(r *h.Run) {
 	rng := r.Rng.Fork("c15")
 	dxFamily(r, rng, "C15", "scripted_cancel")
 	c15DeadlineWhileReceiving(r)
+	c15ServerStreamBlockedSend(r)
 	liveFamily(r, rng.Fork("live"), "live_cancel", true)
 }
 
@@ -1254,4 +1255,64 @@ func (c connCapture) WrapStreamingClient(next connect.StreamingClientFunc) conne
 }
 func (connCapture) WrapStreamingHandler(next connect.StreamingHandlerFunc) connect.StreamingHandlerFunc {
 	return next
+}
+
+// c15ServerStreamBlockedSend: CallServerStream sends its one request message itself. The
+// transport does not read the request (a stalled dial, a peer that is not draining) when the
+// context ends: whatever CallServerStream and the stream it returns report is the context's code.
+func c15ServerStreamBlockedSend(r *h.Run) {
+	for _, proto := range []string{"connect", "grpc", "grpcweb"} {
+		for _, deadline := range []bool{false, true} {
+			opts := []connect.ClientOption{connect.WithCodec(h.ToyCodec{})}
+			switch proto {
+			case "grpc":
+				opts = append(opts, connect.WithGRPC())
+			case "grpcweb":
+				opts = append(opts, connect.WithGRPCWeb())
+			}
+			stalled := roundTripFunc(func(req *http.Request) (*http.Response, error) {
+				<-req.Context().Done() // never reads the body
+				return nil, req.Context().Err()
+			})
+			cl := connect.NewClient[h.Raw, h.Raw](stalled, "http://verif.local/verif.Svc/Server", opts...)
+			want := connect.CodeCanceled
+			var ctx context.Context
+			var cancel context.CancelFunc
+			if deadline {
+				want = connect.CodeDeadlineExceeded
+				ctx, cancel = context.WithTimeout(context.Background(), 80*time.Millisecond)
+			} else {
+				ctx, cancel = context.WithCancel(context.Background())
+				time.AfterFunc(80*time.Millisecond, cancel)
+			}
+			var callErr, recvErr error
+			var gotStream bool
+			timedOut, p := withWatchdog(5*time.Second, func() {
+				st, err := cl.CallServerStream(ctx, connect.NewRequest(&h.Raw{B: []byte("request")}))
+				callErr = err
+				if err == nil {
+					gotStream = true
+					for st.Receive() {
+					}
+					recvErr = st.Err()
+					_ = st.Close()
+				}
+			})
+			cancel()
+			in := map[string]any{"proto": proto, "kind": "server", "transport": "does not read the request body (stalled)", "context": map[bool]string{false: "cancelled after 80ms", true: "deadline of 80ms"}[deadline]}
+			r.Eval("server_stream_blocked_send", fmt.Sprint(proto, deadline))
+			r.Sample("server_stream_blocked_send", map[string]any{"in": in, "CallServerStream": fmt.Sprint(callErr), "stream_error": fmt.Sprint(recvErr)})
+			if timedOut || p != nil {
+				r.Fail(h.Failure{Key: "hang/CallServerStream", Family: "server_stream_blocked_send", What: fmt.Sprint("hang or panic: ", p), Input: in})
+				continue
+			}
+			got := callErr
+			if gotStream {
+				got = recvErr
+			}
+			if got == nil || connect.CodeOf(got) != want {
+				r.Fail(h.Failure{Key: "cancel/code/CallServerStream", Family: "server_stream_blocked_send", What: "the context ended while CallServerStream's Send was blocked: the call reports " + fmt.Sprint(got), Input: in, Expected: want.String(), Actual: fmt.Sprint(got)})
+			}
+		}
+	}
 }
